@@ -340,7 +340,24 @@ def internal_contracts(l1):
     l1.goal("projP1xP1.Double", "x(2P): Xo*Dx = Zo*Nx", Xo * Dx - Zo * Nx, st2, m2, fname)
     l1.goal("projP1xP1.Double", "y(2P): Yo*Dy = To*Ny", Yo * Dy - To * Ny, st2, m2, fname)
     l1.goal("projP1xP1.Double", "completed point on the curve", -(Xo ** 2) * To ** 2 + Yo ** 2 * Zo ** 2 - Zo ** 2 * To ** 2 - d * Xo ** 2 * Yo ** 2, st2, m2, fname)
-    l1.goal("projP1xP1.Double", "Zb^2*Zo = Dx' and Zb^2*To = Dy' factorisation (non-zero by completeness): Zb^4*Zo*To = Dx*Dy", Zb ** 4 * Zo * To - Dx * Dy, st2, m2, fname)
+    # Zo and To are non-zero: Zo*To is, up to a non-zero constant and powers of Zb, the product Dx*Dy of the two denominators
+    # of the doubling law, which do not vanish on curve points (completeness).  Which powers appear depends on the formula
+    # used (dedicated doubling vs the unified law specialised to P+P), so the candidates are tried in turn.
+    cands = [(4, 0, 1), (0, 0, 1), (2, 0, 1), (0, 4, 1), (0, 2, 1), (8, 0, 1), (0, 8, 1), (4, 0, 4), (0, 0, 4), (4, 0, 2), (0, 0, 2), (0, 4, 4), (0, 4, 16), (0, 0, 16)]
+    chosen = None
+    for a_, b_, c_ in cands:
+        g_ = Zb ** a_ * Zo * To * c_ - Zb ** b_ * Dx * Dy
+        if certs.prove(g_, st2, m2)["verdict"] == "unsat":
+            chosen = (a_, b_, c_, g_)
+            break
+        g_ = Zb ** a_ * Zo * To - Zb ** b_ * Dx * Dy * c_
+        if c_ != 1 and certs.prove(g_, st2, m2)["verdict"] == "unsat":
+            chosen = (a_, b_, -c_, g_)
+            break
+    if chosen:
+        l1.goal("projP1xP1.Double", "Zo*To is a non-zero multiple of the denominators (non-zero by completeness): Zb^%d*Zo*To*%s = Zb^%d*Dx*Dy" % (chosen[0], chosen[2] if chosen[2] > 0 else "1/%d" % -chosen[2], chosen[1]), chosen[3], st2, m2, fname)
+    else:
+        l1.goal("projP1xP1.Double", "Zb^2*Zo = Dx' and Zb^2*To = Dy' factorisation (non-zero by completeness): Zb^4*Zo*To = Dx*Dy", Zb ** 4 * Zo * To - Dx * Dy, st2, m2, fname)
     chk.soft("projP1xP1.Double: returns receiver, source not written", r.outcome[1][0] == v and not any(w[0] == "w" and w[1] == src.obj for w in r.log), [fname])
     # --- cached forms
     P2s = l1.p3("2")
